@@ -56,6 +56,15 @@ pub fn seeds() -> Vec<String> {
         "<p><s>abc\u{a0}</s></p><p>next</p>",
         "<p><s>a\u{3000}</s> b <del>x\u{2003}y\u{a0}</del></p>",
         "<ul><li><s>qa\u{a0}</s><br>qb</li></ul>",
+        // content without any display width: only combining marks / zero-width spaces, empty tables in prefixed blocks
+        "<ul><li>\u{301}</li></ul>",
+        "<blockquote>\u{200b}</blockquote><ol><li>\u{301}\u{301} \u{301}</li></ol>",
+        "<table><tr><td>\u{301}</td></tr></table>",
+        "<table><tr><td>\u{301}</td></tr><tr><td>qb</td></tr></table>",
+        "<table><tr><td>qa</td><td>\u{200b}</td></tr></table>",
+        "<ul><li><table><tr><td></td></tr></table></li></ul>",
+        "<blockquote><table><tr><td></td></tr></table></blockquote>",
+        "<dl><dd><table><tr><td></td><td></td></tr></table></dd></dl>",
         "<p><del>a中b</del> <s>c</s></p>",
         "<p><img src=/s alt=\"al t\"><img alt=noalt><img src=/s></p>",
         "<dl><dt>t<dd>d<dd><p>e</dl>",
